@@ -9,7 +9,7 @@ The result is tied to the hand models of lean/SCoda/Model/Token.lean / Render.le
 building (tools/test_py2lean_tok.sh).  The translator knows Python constructs, not functions; anything outside the subset
 raises `Untranslatable` (gen_lean.py then writes a file that does not compile).
 
-CONVENTIONS  (support library: lean/SCoda/Model/TokLib.lean)
+CONVENTIONS  (support library: lean/SCoda/Model/TokLib.lean, TokLib2.lean)
   object     the tokeniser object is the structure `TokObj`, one field per attribute stored by `__init__` (table FIELDS, checked
              against the stores of `__init__`).  A method that stores into `self` returns the new object (and its value).
              In `__init__` the attributes are locals (`self.ppqn` ↦ `selfPpqn`) until the first method call on `self`, where the
@@ -26,6 +26,11 @@ CONVENTIONS  (support library: lean/SCoda/Model/TokLib.lean)
              `l.index(x)` ↦ `pyIndexOf` (value equality; strings are values), `sorted(l, key=λ)` ↦ `pySortedBy` (all keys first),
              comprehensions ↦ `map` / `mapME`, `any(…)` ↦ `List.any`, `next(x for x in l if c)` ↦ `pyNextM` (lazy),
              `itertools.product(*ls)` ↦ `pyProduct`, `range` ↦ `pyRange`, `enumerate` ↦ `pyEnumerate`, `reversed` ↦ `List.reverse`.
+             `l.sort()` on ints ↦ `pySortInt`; `sorted(x)` without key on ints ↦ `pySortedInt` (= `pySortInt`; Model/TokLib2.lean).
+  sets       `set(l)` on a list of ints ↦ `pySetInt l` (the distinct elements, each once) of type `Set Int`.  A Python set has no specified
+             iteration order, so this type has NO Lean type: it cannot be stored in a variable, iterated, indexed, passed to `list()` or
+             `len()` (all `Untranslatable`); its only consumer is `sorted(…)` without a key, whose result does not depend on the order
+             (Lemmas/TokLib2L.lean `pySortedInt_perm`).  So `sorted(set(l))` ↦ `pySortedInt (pySetInt l)`.
              `math.nan` in a list of ints ↦ `none` in a `List (Option Int)`.
   tuples     a 2-tuple ↦ a pair, `t[0]` / `t[1]` ↦ `.1` / `.2`; tuple targets of `for` / comprehensions ↦ projections.
   numbers    ints ↦ `Int`.  Floats ↦ exact rationals `Rat` (not IEEE doubles): `a / b` ↦ `pyTrueDiv` (ZeroDivisionError),
@@ -73,6 +78,11 @@ def TL(t):
 
 def TO(t):
     return ("Opt", t)
+
+
+def TS(t):
+    """a Python `set`: no Lean type (cannot be stored in a variable, iterated, indexed); only `sorted(…)` consumes it"""
+    return ("Set", t)
 
 
 def TT(a, b):
@@ -221,6 +231,8 @@ LINKS = {
     "get_default_note_values()": ("SCoda.Gen.defaultNoteValues", "evaluated by tools/gen_lean.py"),
     "CircleOfFifths.get_position": ("linkCof", "Gen.getPosition, itself generated from music_theory.py"),
     "list.sort": ("pySortInt", "list.sort() on ints is a stable sort; `pySortInt` is the stable insertion sort"),
+    "set(list of ints)": ("pySetInt", "the distinct elements, each once (Model/TokLib2.lean); a set's iteration order is unspecified: consumed by `sorted` only"),
+    "sorted(ints)": ("pySortedInt", "sorted(s) without key on ints = `pySortInt` (ascending insertion sort; the result does not depend on the order of s)"),
     "int(str)": ("pyIntOfStr", "Model/Render.lean `pyInt?` (decimal digits with optional sign)"),
     "str.split": ("pySplit", "`String.splitOn` = Python `str.split(sep)` for a non-empty separator"),
     "Message(…)": ("a `Msg` literal", "missing fields are None (`pyNone`), a missing channel is 0 (Message.__init__, checked by tools/py2lean.py)"),
@@ -981,6 +993,19 @@ class FnTranslator:
             finally:
                 self.bound.pop()
             return E(f"(← pyNextM (fun {v} => {self.as_m(c)}) {it.text})", it.ty[1], True)
+        if name == "set":
+            # `set(l)` on a list of ints: a value of type `Set Int`.  The iteration order of a Python set is unspecified, so the type
+            # has no Lean type for a variable (`lean_ty` fails) and is accepted by one consumer only: `sorted(…)` without a key.
+            a = self.expr(self.one_arg(n))
+            if a.ty != TL(INT):
+                self.fail(f"set() of a {a.ty}")
+            return E(f"({self.use_link('set(list of ints)')} {a.text})", TS(INT), a.mon)
+        if name == "sorted" and len(n.args) == 1 and not n.keywords:
+            # `sorted(s)` without key / reverse, on a set or a list of ints
+            a = self.expr(n.args[0])
+            if a.ty not in (TS(INT), TL(INT)):
+                self.fail(f"sorted (no key) of a {a.ty}")
+            return E(f"({self.use_link('sorted(ints)')} {a.text})", TL(INT), a.mon)
         if name == "sorted":
             kw = self.kwargs(n, ["iterable", "key"])
             if set(kw) != {"iterable", "key"} or not isinstance(kw["key"], ast.Lambda):
@@ -2197,7 +2222,7 @@ def gen_tok_fns():
     L = []
     L.append("/- GENERATED by tools/py2lean_tok.py (through tools/gen_lean.py) from /repo — do not edit.")
     L.append(f"   Statement-by-statement translation of `{CLS}` ({SRC}) into `do` blocks over")
-    L.append("   `Except PyErr`.  Conventions: docstring of tools/py2lean_tok.py; support library: Model/TokLib.lean.")
+    L.append("   `Except PyErr`.  Conventions: docstring of tools/py2lean_tok.py; support library: Model/TokLib.lean, Model/TokLib2.lean.")
     L.append("   Tied to the hand models (Model/Token.lean, Model/Render.lean) by lean/SCoda/Props/TokTie.lean.")
     L.append("")
     L.append("   LINK TABLE — callees that are not translated but mapped to an existing Lean function (assumptions):")
@@ -2205,7 +2230,7 @@ def gen_tok_fns():
         used = "used" if key in reg.links_used else "unused"
         L.append(f"     {key} ↦ {LINKS[key][0]}   [{used}]  {LINKS[key][1]}")
     L.append("-/")
-    L.append("import SCoda.Model.TokLib")
+    L.append("import SCoda.Model.TokLib2")
     L.append("set_option linter.unusedVariables false")
     L.append("namespace SCoda.Gen.Tok")
     L.append("open SCoda SCoda.TokLib")
